@@ -1,1 +1,133 @@
-// verification hook for h263/src/parser/block.rs (compiled only under cfg(kani) or cfg(ruffle_rs_h263_rs_verif))
+// Hook module of h263/src/parser/block.rs.  Property C02 (and C11): the TCOEF table against the facts of Table 16/H.263 that can be
+// stated without retyping its 102 code words: the table is a proper prefix tree, its event leaves are EXACTLY the events that have a code
+// word (LEVEL 1..=LMAX(LAST, RUN)), each once, the ESCAPE code word and the five shortest code words are the Recommendation's.
+// (Two leaves exchanged for one another are not seen by this check.)
+#![allow(dead_code, unused_imports)]
+use super::*;
+
+include!("/verif/hooks/common.rs");
+include!("/verif/spec/h263_vlc_tables.rs");
+
+fn walk<T: Clone>(table: &[Entry<T>], code: &str) -> Option<(T, usize)> {
+    let b = code.as_bytes();
+    let mut idx = 0usize;
+    let mut used = 0usize;
+    let mut steps = 0;
+    while steps < 40 {
+        match table.get(idx) {
+            Some(Entry::End(t)) => return Some((t.clone(), used)),
+            Some(Entry::Fork(z, o)) => {
+                if used >= b.len() {
+                    return None;
+                }
+                idx = if b[used] == b'0' { *z } else { *o };
+                used += 1;
+            }
+            None => return None,
+        }
+        steps += 1;
+    }
+    None
+}
+
+// every slot except the root is the child of exactly one fork, children lie inside the table
+fn prefix_tree<T>(table: &[Entry<T>]) -> bool {
+    let mut refs = [0u8; 256];
+    let mut ok = table.len() <= 256;
+    let mut i = 0;
+    while i < table.len() {
+        if let Entry::Fork(z, o) = &table[i] {
+            if *z >= table.len() || *o >= table.len() || *z == 0 || *o == 0 || *z == *o {
+                ok = false;
+            } else {
+                refs[*z] += 1;
+                refs[*o] += 1;
+            }
+        }
+        i += 1;
+    }
+    // every slot is reachable; forks have exactly one parent (no cycles, no shared subtrees); a leaf may be shared (e.g. one `Invalid` leaf)
+    let mut k = 1;
+    while k < table.len() {
+        if refs[k] == 0 || (refs[k] != 1 && matches!(&table[k], Entry::Fork(..))) {
+            ok = false;
+        }
+        k += 1;
+    }
+    ok && refs[0] == 0
+}
+
+fn h_tcoef_table<S: Src>(s: &mut S) {
+    chk!(s, prefix_tree(&TCOEF_TABLE[..]), "block.TCOEF_TABLE.prefix_tree: a well-formed code tree: every slot reachable, every fork has one parent, indices inside the table");
+    let mut seen = [[[false; 13]; 41]; 2];
+    let mut events = 0;
+    let mut escapes = 0;
+    let mut in_set = true;
+    let mut once = true;
+    let mut i = 0;
+    while i < TCOEF_TABLE.len() {
+        match &TCOEF_TABLE[i] {
+            Entry::End(Some(ShortTCoefficient::Run { last, run, level })) => {
+                events += 1;
+                let lmax = h263_vlc_spec::tcoef_lmax(*last, *run);
+                if *level < 1 || *level > lmax {
+                    in_set = false;
+                } else {
+                    let l = *last as usize;
+                    if seen[l][*run as usize][*level as usize] {
+                        once = false;
+                    }
+                    seen[l][*run as usize][*level as usize] = true;
+                }
+            }
+            Entry::End(Some(ShortTCoefficient::EscapeToLong)) => escapes += 1,
+            _ => {}
+        }
+        i += 1;
+    }
+    chk!(s, in_set, "block.TCOEF_TABLE.table16_events: every (LAST, RUN, LEVEL) leaf is an event that has a code word in Table 16 (LEVEL <= LMAX(LAST, RUN))");
+    chk!(s, once && events == 102, "block.TCOEF_TABLE.table16_complete: the 102 events of Table 16, each exactly once");
+    chk!(s, escapes == 1 && matches!(walk(&TCOEF_TABLE[..], h263_vlc_spec::TCOEF_ESCAPE), Some((Some(ShortTCoefficient::EscapeToLong), 7))), "block.TCOEF_TABLE.escape: ESCAPE is 0000 011, once");
+    let mut k = 0;
+    let mut short_ok = true;
+    while k < 5 {
+        let (code, last, run, level) = h263_vlc_spec::TCOEF_SHORTEST[k];
+        match walk(&TCOEF_TABLE[..], code) {
+            Some((Some(ShortTCoefficient::Run { last: l, run: r, level: v }), used)) => {
+                if l != last || r != run || v != level || used != code.len() {
+                    short_ok = false;
+                }
+            }
+            _ => short_ok = false,
+        }
+        k += 1;
+    }
+    chk!(s, short_ok, "block.TCOEF_TABLE.shortest: 10, 110, 1110, 1111, 0111 are (0,0,1) (0,1,1) (0,2,1) (0,0,2) (1,0,1)");
+    s.reach();
+}
+
+#[cfg(kani)]
+mod proofs {
+    use super::*;
+    #[kani::proof]
+    #[kani::unwind(260)]
+    fn tcoef_table() {
+        h_tcoef_table(&mut KSrc)
+    }
+}
+
+#[cfg(all(test, not(kani)))]
+mod replay {
+    use super::*;
+    fn dispatch(name: &str, r: &mut RSrc) -> bool {
+        match name {
+            "tcoef_table" => h_tcoef_table(r),
+            _ => return false,
+        }
+        true
+    }
+    #[test]
+    fn verif_replay() {
+        verif_replay_main(dispatch)
+    }
+}
